@@ -375,8 +375,8 @@ func c16CheckEntries(t *T, fs hackpadfs.FS, dir string, ents []hackpadfs.DirEntr
 		if err != nil || info == nil {
 			t.Fail("info", sig+":info-fails", fmt.Sprintf("entry %q: Info() = %v, %v", e.Name(), info, err))
 		}
-		if info.Name() != st.Name() || info.IsDir() != st.IsDir() || info.Mode().Perm() != st.Mode().Perm() || (!st.IsDir() && info.Size() != st.Size()) {
-			t.Fail("info", sig+":info-vs-stat", fmt.Sprintf("entry %q: Info() = {%s}, Stat = {%s}", e.Name(), infoString(info), infoString(st)))
+		if info.Name() != st.Name() || info.IsDir() != st.IsDir() || info.Mode() != st.Mode() || (!st.IsDir() && info.Size() != st.Size()) || !info.ModTime().Equal(st.ModTime()) {
+			t.Fail("info", sig+":info-vs-stat", fmt.Sprintf("entry %q: Info() = {%s mode=%v mtime=%v}, Stat = {%s mode=%v mtime=%v}", e.Name(), infoString(info), info.Mode(), info.ModTime().UnixNano(), infoString(st), st.Mode(), st.ModTime().UnixNano()))
 		}
 	}
 }
